@@ -413,7 +413,7 @@ func checkChainAssembly(c *Check) {
 				// .run() on the result
 				ran := false
 				for _, r := range referrers(ci.(*ssa.Call)) {
-					if rc, ok := r.(ssa.CallInstruction); ok && rc.Common().IsInvoke() && rc.Common().Method.Name() == "run" {
+					if rc, ok := r.(ssa.CallInstruction); ok && rc.Common().IsInvoke() && p.methodAliasName(rc.Common().Method.Name()) == "run" {
 						ran = true
 					}
 				}
